@@ -48,6 +48,10 @@ structure Inv (s : State) : Prop where
   srcOk : SrcOk s.src
   laterOk : ∀ n ∈ s.later, SrcOk n
 
+/-- The seeker branch of `client_skip_proxy` is not in play: a skip callback is registered, or
+there is no seek callback (see `seekSkip`; known finding "skip-by-seek"). -/
+def NoSeekSkip (s : State) : Prop := s.noSkipper = false ∨ s.hasSeeker = false
+
 theorem inv_init_nodes (src : List (List Nat)) (later : List (List (List Nat))) (t : Term) (sk : List Int)
     (cs : Bool) (h : SrcOk src) (hl : ∀ n ∈ later, SrcOk n) :
     Inv { src := src, later := later, term := t, skips := sk, canSkip := cs } :=
